@@ -3,6 +3,7 @@
 package command
 
 import (
+	"bytes"
 	"context"
 	"encoding/hex"
 	"encoding/json"
@@ -297,7 +298,7 @@ func c03nsCheck(c c03nsCase) *kit.Verdict {
 func TestC03Netns(t *testing.T) {
 	kit.Run(t, kit.Spec[c03nsCase]{
 		Prop: "C03",
-		Rule: "the REAL sx binary in a fresh network namespace (kernel BPF, real AF_PACKET adapter, TPACKET ring): arp / icmp / udp / tcp syn / tcp fin / tcp --flags over a /28../30 (1..3 port ranges, sometimes 201..230 ranges = several sockets and kernel filters) attached to a veth (Ethernet) or a tun device (raw IP), a quarter of the runs with the scanner pinned to one CPU (taskset: a one-vCPU host), 1..20 frames injected on the far end of the veth / written into the tun as reactions to the k-th probe: reply-shaped frames and near misses exactly as in TestC03Detection (subnet edges, port edges, flag sets, options, ICMP types, foreign protocols; VLAN-tagged frames are not generated here because the kernel strips the tag before packet sockets see the frame). Oracle: stdout records = one per frame that shape.Classify calls reply-shaped (multiset); a miss is re-decided with a 3 s exit delay (and counts as a violation when a reply to the last probe, inside the 400 ms exit delay, is only reported with the long delay - unless a scheduler-lateness monitor saw the machine stall for 40 ms or more during the run: then the case is discarded); the process must not run shorter than the exit delay. non-trivial: >=1 reply-shaped and >=1 other frame; distinct by case",
+		Rule: "the REAL sx binary in a fresh network namespace (kernel BPF, real AF_PACKET adapter, TPACKET ring): arp / icmp / udp / tcp syn / tcp fin / tcp --flags over a /28../30 (1..3 port ranges, sometimes 201..230 ranges = several sockets and kernel filters) attached to a veth (Ethernet) or a tun device (raw IP), a quarter of the runs with the scanner pinned to one CPU (taskset: a one-vCPU host), 1..20 frames (for tcp scans in half of the cases also a reply with 40 bytes of IP options and 40 bytes of TCP options) injected on the far end of the veth / written into the tun as reactions to the k-th probe: reply-shaped frames and near misses exactly as in TestC03Detection (subnet edges, port edges, flag sets, options, ICMP types, foreign protocols; VLAN-tagged frames are not generated here because the kernel strips the tag before packet sockets see the frame). Oracle: stdout records = one per frame that shape.Classify calls reply-shaped (multiset); a miss is re-decided with a 3 s exit delay (and counts as a violation when a reply to the last probe, inside the 400 ms exit delay, is only reported with the long delay - unless a scheduler-lateness monitor saw the machine stall for 40 ms or more during the run: then the case is discarded); the process must not run shorter than the exit delay. non-trivial: >=1 reply-shaped and >=1 other frame; distinct by case",
 		Gen: func(t *rapid.T) c03nsCase {
 			c := c03nsCase{Cmd: rapid.SampledFrom([]string{"arp", "icmp", "udp", "tcp", "tcp syn", "tcp fin", "tcp --flags fin,ack"}).Draw(t, "cmd"), Bits: rapid.SampledFrom([]int{28, 29, 30}).Draw(t, "bits")}
 			base := strings.Fields(c.Cmd)[0]
@@ -340,6 +341,23 @@ func TestC03Netns(t *testing.T) {
 				c.Late = true
 			}
 			c.OneCPU = rapid.IntRange(0, 3).Draw(t, "one-cpu") == 0
+			if strings.HasPrefix(c.Cmd, "tcp") && len(targets) > 0 && len(c.Ports) > 0 && rapid.Bool().Draw(t, "max-headers") {
+				// a reply with the longest headers there are (40 bytes of IP options, 40 bytes of TCP options, Ethernet mode:
+				// 134 bytes before the first byte of data): only the real kernel honours the capture length a filter returns
+				s4, d4 := gram.U32Bytes(targets[0]), [4]byte{10, 250, 0, 1}
+				fl := uint16(wire.RST | wire.ACK)
+				if scanKind(c.Cmd) == "tcpsyn" {
+					fl = wire.SYN | wire.ACK
+				}
+				nop := bytes.Repeat([]byte{1}, 40)
+				body := wire.IPv4{ID: 77, Flags: 2, TTL: 61, Proto: wire.ProtoTCP, Src: s4, Dst: d4, Options: nop}.Bytes(
+					wire.TCP{SrcPort: c.Ports[0].Start, DstPort: 40000, Flags: fl, Window: 100, Options: nop}.Bytes(s4, d4, []byte("data behind the longest headers")))
+				fr := body
+				if !c.Tun {
+					fr = append(wire.Eth{Dst: [6]byte{2, 0, 0, 0, 0, 1}, Src: [6]byte{2, 5, 5, 5, 5, 5}, Type: wire.EtherIPv4}.Bytes(), body...)
+				}
+				vc.Events = append(vc.Events, c03Event{AtWrite: 1, Frame: fr, Note: "max-headers"})
+			}
 			for _, e := range vc.Events {
 				if strings.HasPrefix(e.Note, "vlan") {
 					// the kernel strips 802.1Q tags before packet sockets see the frame (the tag travels in the ring's
